@@ -25,6 +25,12 @@ OWN = {"P07_scope"}
 _TAG = re.compile(r"^([0-9a-f]+)_([0-9a-f]+)$")
 
 
+# the three-client runs load iauth_class as well (same rules interleaved and alone): module-level state of the class module
+# (caches, static buffers) is shared between clients too
+CLASSY = {"modules": ("iauth_xquery", "iauth_class"),
+          "rules": [{"name": "ro", "account": "?*", "class": "stamped"}, {"name": "rh", "hostname": "h1x5*", "class": "hosted"}]}
+
+
 def owner(e):
     if e["e"] == "X":
         return e.get("oid")
@@ -70,7 +76,7 @@ def remap(events, new_id):
             e["oid"] = new_id
         if e["e"] == "C":
             e["addr"] = "A%x" % new_id
-            e["port"] = 1000 + new_id
+            e["port"] = 1000 + (new_id & 0xfff)
         # every client gets its own texts (a value leaking from one client into another's lines must be visible)
         for f in ("host", "ident", "nick", "user", "real", "cred", "acct", "text"):
             if f in e and e[f][1] > 0 and not e[f][0].endswith("x%x" % new_id):
@@ -292,7 +298,9 @@ def three_client_jobs(ctx, name, table, nmerge, **mc):
     jobs = []
     for n in range(nmerge):
         hs = []
-        for new_id in (4, 5, 6):
+        # every third merge uses five-hex-digit client ids (with a crowd in front the routing tags reach 8+ characters)
+        ids3 = (0x10004, 0x10005, 0x10006) if n % 3 == 0 else (4, 5, 6)
+        for new_id in ids3:
             h = ctx.rng.choice(singles)
             h = [e for e in h if e["e"] != "J"]
             hs.append(remap(h + R.probe_tail(h, svcs), new_id))
@@ -303,7 +311,7 @@ def three_client_jobs(ctx, name, table, nmerge, **mc):
                 e["oid"] = int(m.group(1), 16) if m else None
         if n % 3 == 0:
             full = with_crowd(ctx.rng, full)
-        a = ctx.rng.choice((4, 5, 6))
+        a = ctx.rng.choice(ids3)
         solo, pairs = project(full, a)
         jobs.append((len(jobs), full, solo, pairs, True))
     ctx.cov["distinct_nontrivial"] += len(jobs)
@@ -331,7 +339,7 @@ def run(ctx):
         differential(ctx, "two", "S_t1d", jobs)
         noninterf_model(ctx, "q1sim", "S_t1d", exhaustive=False, simulate="num=2500", depth=30, workers=6, timeout=120, max_pw=1)
         jobs = three_client_jobs(ctx, "three", "S_t1b", nmerge=70, emit_mod=60, max_inst=2, max_pw=1, stray=1)
-        differential(ctx, "three", "S_t1b", jobs)
+        differential(ctx, "three", "S_t1b", jobs, **CLASSY)
     else:
         jobs = two_client_jobs(ctx, "q0", "S_t1d", nb=2500, max_pw=0, emit_mod=4)
         differential(ctx, "two0", "S_t1d", jobs)
@@ -343,7 +351,7 @@ def run(ctx):
                         inst_a=2, others="O2")
         for table in ("S_q1", "S_t1b", "S_t1d", "S_t1a"):
             jobs = three_client_jobs(ctx, "three" + table, table, nmerge=1200, emit_mod=20, max_inst=2, max_pw=1, stray=1)
-            differential(ctx, "three" + table, table, jobs)
+            differential(ctx, "three" + table, table, jobs, **CLASSY)
     if not ctx.cov.get("differential_steps_compared"):
         raise MachineryError("vacuous run: nothing compared")
 
